@@ -703,11 +703,17 @@ impl History for FileHistory {
             return Ok(());
         }
         let old_umask = umask();
-        let f = File::create(path);
+        // do not truncate here: another session may hold the lock (or read under it)
+        let f = OpenOptions::new()
+            .write(true)
+            .create(true)
+            .truncate(false)
+            .open(path);
         restore_umask(old_umask);
         let file = f?;
         let mut lock = RwLock::new(file);
         let lock_guard = lock.write()?;
+        lock_guard.set_len(0)?; // truncate only once the lock is held
         self.save_to(&lock_guard, false)?;
         self.new_entries = 0;
         self.update_path(path, &lock_guard, self.len())
